@@ -45,8 +45,8 @@ FORMS_MIXED = ["L", "B2", "B3"]
 AXIS = []
 for c in CONT:
     for f in (FORMS_SINGLE if c in SINGLE else FORMS_MIXED):
-        if c == "AX" and f in ("Bvv", "Bgv", "Bvg"):
-            continue  # raise in felupe / test space not defined (see ASSUMPTIONS)
+        if c == "AX" and f == "Bgv":
+            continue  # gradient-test / value-trial pairs of two axisymmetric fields are not defined in felupe (see ASSUMPTIONS)
         if c == "M3AX" and f == "B3":
             continue
         AXIS.append([c, f])
@@ -169,7 +169,9 @@ def check(ax, case, rec):
             cmp("assemble(values=integrate())", got2, ref)
         else:
             tu = tshape(v0, gu, d3, mdim)
-            fun = integrand(rng, tv + tu, nq, nc, bcm)
+            if c == "AX" and f == "Bvv":
+                tv = tu = (2,)  # value-value forms of axisymmetric fields act on the in-plane components (mass matrix)
+            fun = integrand(rng, tv + tu, nq, nc, bcm, zero_theta=0 if (c == "AX" and not gv and f != "Bvv") else None)
             form = fem.IntegralForm([fun], fc, dV, fc, grad_v=[gv], grad_u=[gu])
             got = dense(form.assemble(parallel=par))
             ref = ra.bilinear(fun, v0, v0, dV, gv, gu)
